@@ -428,7 +428,11 @@ class Gen:
             elif f == "forward" and self.refs:
                 c, k, ndone = rng.choice(self.refs)
                 kinds = {d[0]: d[1] for d in self.done}
-                k0 = kinds.get(c[k])
+                try:
+                    cur = c[k]
+                except (KeyError, IndexError):
+                    continue          # an earlier fault of this case removed that key
+                k0 = kinds.get(cur if isinstance(cur, str) else None)
                 if k0 in (None, "taxon", "taxa"):
                     continue      # the newick string names the taxa
                 # not complete (in generation order) when the reference is read; same kind, because the
